@@ -67,6 +67,9 @@ TRUSTED = [
     'own_src is compared with docstr=False (the default dedents docstrings, which changes their value by design) and '
     'modulo expr_context; nodes inside f-strings are excluded (documented as unparsable); exceptions NotImplementedError / '
     'ValueError / NodeError / SyntaxError from a round-trip step count as refusals, not failures (tallied)',
+    'after every put_line_comment / put_docstr the read accessors (own_src, bloc, loc, get_line_comment, get_docstr, '
+    'copy().src) of the written node and of all its ancestors — looked at once BEFORE the write so that caches are warm — '
+    'must answer what a fresh tree built from the new source answers',
     'line comments are read back stripped of surrounding whitespace with full=False (documented); the sweep expects '
     'comment.strip()',
 ]
@@ -527,6 +530,8 @@ def _doc_one(host, s):
     src, pick, _ = DOC_HOSTS[host]
     root = _mk(src)
     node = pick(root)
+    npath = _ser_path(root.child_path(node)) if node is not root else []
+    _read_set(root, npath)
     try:
         node.put_docstr(s)
     except Exception as e:
@@ -551,6 +556,9 @@ def _doc_one(host, s):
         return 'value!=literal', f'Constant.value = {live!r}, source literal denotes {den!r}'
     if host == 'module' and live != s:
         return 'value!=text', f'Constant.value = {live!r}'
+    st = _stale_after_write(root, npath)
+    if st:
+        return 'stale-after-write', st
     # independent reading of the value: what inspect-free dedent by the known indentation gives
     return None
 
@@ -603,6 +611,42 @@ def _cclass(c):
 SWEEP_COMMENTS = [c for c in COMMENTS if '\n' not in c] + ['x' * 60]      # incl. '\r' / NUL texts: must be refused or harmless
 
 
+def _read_set(root, path):
+    """answers of the read accessors on the node at `path` and on every ancestor (what a user sees after a write; also
+    fills the caches when called before it)"""
+    out = []
+    f = _de_path(root, path) if path else root
+    while f is not None:
+        rec = [f.a.__class__.__name__]
+        for fn in (lambda: f.own_src(), lambda: tuple(f.bloc) if f.bloc else None, lambda: tuple(f.loc) if f.loc else None,
+                   lambda: f.get_line_comment(full=True), lambda: f.get_docstr(), lambda: f.copy().src):
+            try:
+                rec.append(fn())
+            except Exception as e:
+                rec.append(f'<{type(e).__name__}>')
+        out.append(rec)
+        f = f.parent
+    return out
+
+
+def _stale_after_write(root, path, before_called=True):
+    """compare the read accessors on the written tree with those of a fresh tree made from its source; None if equal"""
+    try:
+        fresh_root = _mk(root.src)
+    except Exception:
+        return None
+    live = _read_set(root, path)
+    fresh = _read_set(fresh_root, path)
+    if live != fresh:
+        for a, b in zip(live, fresh):
+            if a != b:
+                names = ['kind', 'own_src()', 'bloc', 'loc', 'get_line_comment(full=True)', 'get_docstr()', 'copy().src']
+                k = next(i for i in range(len(a)) if a[i] != b[i])
+                return f'{names[k]} of {a[0]} answers {a[k]!r:.160}, a fresh tree of the same source {b[k]!r:.160}'
+        return 'ancestor chains differ'
+    return None
+
+
 def _comment_case(arg):
     src, seed, per = arg
     rng = random.Random(seed)
@@ -622,6 +666,7 @@ def _comment_case(arg):
         f = root.child_from_path(path)
         kind = f.a.__class__.__name__
         w = {'op': 'comment', 'src': src, 'path': _ser_path(path), 'comment': cc, 'full': full}
+        _read_set(root, _ser_path(path))        # a user who has looked at the node and its parents before writing
         try:
             f.put_line_comment(cc, full=full)
         except Exception as e:
@@ -630,6 +675,10 @@ def _comment_case(arg):
             continue
         k = rng.randint(1, 3)
         r = None
+        s = _stale_after_write(root, _ser_path(path))       # right after the write, before anything else flushes caches
+        if s:
+            r = ('stale-after-write', s)
+            k = 0
         for _ in range(k):
             got = f.get_line_comment(full=full)
             exp = cc if full else cc.strip()
@@ -1376,6 +1425,7 @@ def replay(ctx, data):
     d0 = ast.dump(root.a)
     f = _de_path(root, w['path'])
     if op == 'comment':
+        _read_set(root, w['path'])
         try:
             f.put_line_comment(w['comment'], full=w['full'])
         except Exception as e:
@@ -1388,7 +1438,7 @@ def replay(ctx, data):
             return
         got = f.get_line_comment(full=w['full'])
         exp = w['comment'] if w['full'] else w['comment'].strip()
-        d = util.tree_equals_parse(root)
+        d = util.tree_equals_parse(root) or _stale_after_write(root, w['path'])
         if got != exp or d or ast.dump(root.a) != d0:
             ctx.fail('replay', f'get={got!r} expected={exp!r}; {d}', w)
     elif op == 'own_src':
